@@ -41,3 +41,8 @@ pub mod protocol;
 pub mod publication;
 pub mod subscription;
 pub mod utils;
+
+// Verification hook (guard: cfg(kani)): proof harnesses live outside the repository in /verif/kani.
+#[cfg(kani)]
+#[path = "../../verif/kani/mod.rs"]
+mod verif_kani;
